@@ -28,3 +28,10 @@ import LyModel.Props.C11Compile
 #print axioms LyModel.Props.C11.rmSwapIdx_length
 #print axioms LyModel.Props.C11.augment_order_independent_fails
 #print axioms LyModel.Props.C11.compile_eq_expand_fails
+
+#print axioms LyModel.Props.C11.config_inheritance
+#print axioms LyModel.Props.C11.mandatory_parents_raw
+#print axioms LyModel.Props.C11.mandatory_parents_fixed
+#print axioms LyModel.Props.C11.mandatory_parents_fails
+#print axioms LyModel.Props.C11.compile_eq_expand_witness_fixed
+#print axioms LyModel.Props.C11.uses_refine_local
